@@ -10,7 +10,7 @@ import Pose.Model.ConvertCall
   `err notOrthogonal | detNotOne | notFullRank | nonFinite`.  The determinant kernel is instantiated by `detB`
   (cofactor formula, rounding residue snapped to 0; the harness checks `torch.det` against `c11.det` separately).
 * `c11.region <atol> 9 nums`  → index `0..3` of the selected candidate and the four `t_i`
-* `c11.warn <lay> <check> <rtol> <atol> nums…` → `1` iff the 4×4 last-row warning is issued
+* `c11.warn <ty> <lay> <check> <n> <rtol> <atol> nums…` → `1` iff the 4×4 last-row warning is issued (only `mat2SE3` / `mat2Sim3`, batch-level)
 * `c11.det 9 nums`, `c11.euler2SO3 r p y`, `c11.euler <eps> x y z w` (→ roll pitch yaw flag),
   `c11.eulermat r p y` (→ 9 numbers of `Rz·Ry·Rx`)
 -/
@@ -119,14 +119,17 @@ def opsC11 : List (String × Handler) := [
       | _ => .error "arity"),
   ("c11.warn", fun ts => do
       match ts with
-      | lay :: chk :: rest =>
+      | ty :: lay :: chk :: n :: rest =>
+        let ty ← tyOf ty
         let (lay, rows, cols) ← layOf lay
         let chk ← nat chk
+        let n ← nat n
         let xs ← nums rest
         match xs with
         | rtol :: atol :: data =>
-          if data.length != rows * cols then throw "arity" else
-          return (if lastRowWarn (chk == 1) rtol atol (matIn lay rows cols data) then "1:0" else "0:0")
+          if data.length != n * rows * cols then throw "arity" else
+          let ms := (chunks (rows * cols) n data).map (matIn lay rows cols)
+          return (if lastRowWarnBatch ty (chk == 1) rtol atol ms then "1:0" else "0:0")
         | _ => throw "arity"
       | _ => throw "arity"),
   ("c11.det", numeric fun xs => if xs.length != 9 then .error "arity" else .ok [detB (m3 xs)]),
